@@ -8,7 +8,9 @@ package main
 
 import (
 	"fmt"
+	"go/constant"
 	"go/token"
+	"go/types"
 	"sort"
 	"strings"
 
@@ -45,7 +47,11 @@ var loopsAllowedUsed = map[string]int{}
 // sendChain computes the functions on call paths from root to a call of the named sink:
 // members of the region reachable from root that contain the sink call or call a member.
 func (r *Run) sendChain(root *ssa.Function, sink string) map[*ssa.Function]bool {
-	region := r.P.CG.Reachable([]*ssa.Function{root}, nil)
+	region := r.P.CG.Reachable([]*ssa.Function{root}, func(e *Edge) bool {
+		// what the fan-out helper runs is reached through the call sites that hand it in
+		_, helper := hofAllowed[fnName(e.Caller)]
+		return helper
+	})
 	chain := map[*ssa.Function]bool{}
 	for fn := range region {
 		for _, e := range r.P.CG.Ext[fn] {
@@ -58,6 +64,11 @@ func (r *Run) sendChain(root *ssa.Function, sink string) map[*ssa.Function]bool 
 		changed = false
 		for fn := range region {
 			if chain[fn] {
+				continue
+			}
+			if _, helper := hofAllowed[fnName(fn)]; helper {
+				// the fan-out helper is transparent: the functions it is given are charged to
+				// the call sites that hand them in (hoarg edges); how often it runs them is R1
 				continue
 			}
 			for _, e := range r.P.CG.Out[fn] {
@@ -118,6 +129,32 @@ func ruleMultiplicity(r *Run) {
 			if len(hops) == 0 || len(fn.Blocks) == 0 {
 				continue
 			}
+			// a chain function that can reach itself again (directly or through other chain
+			// functions) sends once per level of the recursion
+			if cyc := chainCycle(r, fn, chain); cyc != "" {
+				r.Bad("R12a.once", fnName(fn), "send-chain function re-enters itself", r.P.pos(fn.Pos()), "a function of the downstream send chain calls itself again ("+cyc+"): each level of the recursion sends the request once more — a retry without a loop; a mutation the service already executed is delivered again")
+			}
+			// no hop is entered on the failure side of another hop: whatever its name, a send
+			// that is made because the previous one failed is a second attempt
+			for _, hop := range hops {
+				for site := range hop {
+					errv := errorOfCall(site)
+					if errv == nil {
+						continue
+					}
+					for _, t := range failureTests(errv) {
+						after := blockReach(t.fail)
+						after[t.fail] = true
+						for _, other := range hops {
+							for s2 := range other {
+								if s2 != site && after[s2.Block()] {
+									r.Bad("R12a.once", fnName(fn), "send after a failed send", r.P.pos(s2.Pos()), "this call into the downstream send chain can run after "+calleeDesc(site.(ssa.CallInstruction).Common())+" has failed (it lies on the failure side of its error test): a fallback or second chance re-sends a batch the service may already have executed — mutations are applied twice and the first failure is hidden")
+								}
+							}
+						}
+					}
+				}
+			}
 			max, cyclic, nSites := 0, false, 0
 			for _, hop := range hops {
 				m, c := maxHopsOnPath(fn, hop)
@@ -152,12 +189,32 @@ func ruleMultiplicity(r *Run) {
 				}
 				n++
 				site := r.P.pos(e.Site.Pos())
-				key := shortPkg(topFn(e.Caller).Pkg.Pkg.Path()) + " | " + cn
+				pkg := shortPkg(topFn(e.Caller).Pkg.Pkg.Path())
+				key := pkg + " | " + cn
+				// a function value handed to somebody else: how often it runs is decided there
+				if e.Kind == "extarg" {
+					lib := calleeDesc(e.Site.Common())
+					r.Bad(rule, fnName(e.Caller), "hands "+cn+" to "+lib, site, "a step of the downstream send chain is handed to a library function ("+lib+") that decides how often, in which order and on which goroutine it runs: the sends are no longer one after the other and no longer stop at the first failure (every upload goes out although an earlier one failed), or are repeated")
+					continue
+				}
+				if e.Kind == "hoarg" {
+					if once, why := r.hofCallsOnce(e); !once {
+						r.Bad(rule, fnName(e.Caller), "calls "+cn, site, "a step of the downstream send chain is handed to a helper that can run it more than once ("+why+"): the same request is sent again after a failure — a mutation the service already executed is delivered twice")
+						continue
+					}
+				}
 				if !inAnyLoop(e.Site.Block()) {
 					r.OK(rule, fnName(e.Caller), "calls "+cn, site, "call site is not inside any loop of its function: executed at most once per invocation")
 				} else if ent, ok := loopsAllowed[key]; ok && loopsAllowedUsed[r.Property+key] < ent.N {
 					loopsAllowedUsed[r.Property+key]++
 					r.Tabled(rule, fnName(e.Caller), "calls "+cn, site, "loopsAllowed", ent.Reason)
+				} else if below := loopedBelow(r, callee, chain, rs[1], pkg); len(below) > 0 && creditsLeft(r, below) {
+					// the body of a confirmed loop was moved into this callee: the loop is
+					// charged to the confirmed callees that every path to the network passes
+					for _, k := range below {
+						loopsAllowedUsed[r.Property+k]++
+					}
+					r.Tabled(rule, fnName(e.Caller), "calls "+cn, site, "loopsAllowed", "every path from "+cn+" to the network goes through "+strings.Join(below, ", ")+": "+loopsAllowed[below[0]].Reason)
 				} else {
 					r.Bad(rule, fnName(e.Caller), "calls "+cn, site, "a step of the downstream send chain is called from inside a loop: the same request can be sent more than once (retry) or once per list entry instead of once per batch")
 				}
@@ -210,10 +267,10 @@ func ruleMultiplicity(r *Run) {
 	// one pass per depth: the loop around de.Execute has a strictly increasing induction variable
 	mgr := r.Anchor(rule, "executor.(*DepthExecutorManager).Execute")
 	if mgr != nil {
-		for _, e := range r.P.CG.Out[mgr] {
-			if fnName(e.Callee) != "executor.(*DepthExecutor).Execute" {
-				continue
-			}
+		passes := depthPassSites(r, mgr)
+		r.AtLeast(rule, "calls of DepthExecutor.Execute under the manager", len(passes), 1)
+		for _, ps := range passes {
+			e := ps.edge
 			loop := innermostLoop(e.Site.Block())
 			ok := false
 			if loop != nil {
@@ -320,72 +377,189 @@ func ruleMultiplicity(r *Run) {
 	}
 }
 
+// dedupKeySite is one place where a de-duplication key is computed: directly in setIMap, or
+// in a helper it calls with the request variables (`sharedLookupKey(req, variables)`).
+type dedupKeySite struct {
+	fn   *ssa.Function
+	vars ssa.Value         // the request variables in fn
+	key  ssa.Value         // the key value in fn
+	at   *ssa.BasicBlock   // the block that hands the key on (the Set call / the return)
+	ok   []*ssa.BasicBlock // in the callers: blocks that use the key; must lie on the helper's ok side
+	okOf []ssa.Value       // the helper's boolean result at those callers
+}
+
+// resolveDedupKey follows a key that is the result of a module helper into that helper: the
+// checks are then made on what the helper returns together with `true`.
+func resolveDedupKey(s dedupKeySite, depth int) []dedupKeySite {
+	var call *ssa.Call
+	idx := 0
+	switch x := s.key.(type) {
+	case *ssa.Extract:
+		if c, ok := x.Tuple.(*ssa.Call); ok {
+			call, idx = c, x.Index
+		}
+	case *ssa.Call:
+		call = x
+	}
+	if call == nil || depth > 2 {
+		return []dedupKeySite{s}
+	}
+	g := call.Call.StaticCallee()
+	if g == nil || !inModule(g) || len(g.Blocks) == 0 || call.Call.IsInvoke() {
+		return []dedupKeySite{s}
+	}
+	pi := -1
+	for i, a := range call.Call.Args {
+		if a == s.vars && i < len(g.Params) {
+			pi = i
+		}
+	}
+	if pi < 0 {
+		return []dedupKeySite{s}
+	}
+	// the helper's boolean result, as seen by the caller
+	var okv ssa.Value
+	bi := -1
+	for i := 0; i < g.Signature.Results().Len(); i++ {
+		if shortType(g.Signature.Results().At(i).Type()) == "bool" {
+			bi = i
+		}
+	}
+	if bi >= 0 && call.Referrers() != nil {
+		for _, ref := range *call.Referrers() {
+			if ex, ok := ref.(*ssa.Extract); ok && ex.Index == bi {
+				okv = ex
+			}
+		}
+	}
+	var out []dedupKeySite
+	for _, ret := range returnsOf(g) {
+		rv := retVals(ret)
+		if idx >= len(rv) {
+			continue
+		}
+		if bi >= 0 && bi < len(rv) {
+			if k, isConst := rv[bi].(*ssa.Const); isConst && k.Value != nil && k.Value.ExactString() == "false" {
+				continue // "no shared key" exit
+			}
+		}
+		n := dedupKeySite{fn: g, vars: g.Params[pi], key: rv[idx], at: ret.Block(), ok: append(append([]*ssa.BasicBlock{}, s.ok...), s.at), okOf: append(append([]ssa.Value{}, s.okOf...), okv)}
+		if bi < 0 {
+			n.ok, n.okOf = s.ok, s.okOf
+		}
+		out = append(out, resolveDedupKey(n, depth+1)...)
+	}
+	if len(out) == 0 {
+		return []dedupKeySite{s}
+	}
+	return out
+}
+
+// onTrueSide: block b is reached only when the boolean v holds.
+func onTrueSide(v ssa.Value, b *ssa.BasicBlock) bool {
+	if v == nil || v.Referrers() == nil {
+		return false
+	}
+	var tests []ssa.Value
+	tests = append(tests, v)
+	for _, iff := range allInstrs(b.Parent()) {
+		i, ok := iff.(*ssa.If)
+		if !ok {
+			continue
+		}
+		var side *ssa.BasicBlock
+		if i.Cond == v {
+			side = i.Block().Succs[0]
+		} else if un, isUn := i.Cond.(*ssa.UnOp); isUn && un.Op == token.NOT && un.X == v {
+			side = i.Block().Succs[1]
+		}
+		if side != nil && len(side.Preds) == 1 && (side == b || side.Dominates(b)) {
+			return true
+		}
+	}
+	return false
+}
+
 func ruleDedup(r *Run) {
 	const rule = "R13k"
 	set := r.Anchor(rule, "executor.(*DepthExecutor).setIMap")
 	if set != nil && len(set.Params) >= 4 {
-		vars := set.Params[3]
 		n := 0
 		for _, ins := range allInstrs(set) {
 			c, ok := ins.(*ssa.Call)
 			if !ok || !strings.HasSuffix(calleeName(&c.Call), "executor.indexMap).Set") || len(c.Call.Args) != 4 {
 				continue
 			}
-			key := c.Call.Args[3]
 			// the fallback key is strconv.Itoa(index): unique per request, no de-duplication
-			if kc, ok := key.(*ssa.Call); ok && calleeName(&kc.Call) == "strconv.Itoa" {
+			if kc, ok := c.Call.Args[3].(*ssa.Call); ok && calleeName(&kc.Call) == "strconv.Itoa" {
 				r.OK(rule, fnName(set), "unique key", r.P.pos(c.Pos()), "requests that are not id-only node lookups get a key that is unique per request (their index)")
 				continue
 			}
 			n++
-			// depends on variables["id"] and on QueryStringHash
-			depID := false
-			for _, i2 := range allInstrs(set) {
-				if lk, ok := i2.(*ssa.Lookup); ok && lk.X == ssa.Value(vars) {
-					if k, ok := lk.Index.(*ssa.Const); ok && k.Value != nil && k.Value.ExactString() == `"id"` {
-						for _, ref := range *lk.Referrers() {
-							if ex, ok := ref.(*ssa.Extract); ok && ex.Index == 0 && dependsOnThroughMem(key, ex) {
+			for _, ks := range resolveDedupKey(dedupKeySite{fn: set, vars: set.Params[3], key: c.Call.Args[3], at: c.Block()}, 0) {
+				fn, vars, key := ks.fn, ks.vars, ks.key
+				site := r.P.pos(c.Pos())
+				if fn != set {
+					site = r.P.pos(fn.Pos())
+				}
+				// depends on variables["id"] and on QueryStringHash
+				depID := false
+				for _, i2 := range allInstrs(fn) {
+					if lk, ok := i2.(*ssa.Lookup); ok && lk.X == vars {
+						if k, ok := lk.Index.(*ssa.Const); ok && k.Value != nil && k.Value.ExactString() == `"id"` {
+							for _, ref := range *lk.Referrers() {
+								if ex, ok := ref.(*ssa.Extract); ok && ex.Index == 0 && dependsOnThroughMem(key, ex) {
+									depID = true
+								}
+							}
+							if !lk.CommaOk && dependsOnThroughMem(key, lk) {
 								depID = true
 							}
 						}
-						if !lk.CommaOk && dependsOnThroughMem(key, lk) {
-							depID = true
+					}
+				}
+				depHash := dependsOnFieldThroughMem(key, "QueryStringHash")
+				r.Check(depID, rule, fnName(fn), "dedup key includes the entity id", site,
+					"the key is computed from variables[\"id\"]",
+					"the de-duplication key does not depend on the entity id taken from the request variables: lookups of different entities can collapse, or the same entity is fetched once per list position")
+				r.Check(depHash, rule, fnName(fn), "dedup key includes the sub-query hash", site,
+					"the key is computed from QueryPlanStep.QueryStringHash",
+					"the de-duplication key ignores the sub-query: two different sub-queries for the same entity would share one answer")
+				// guard: len(variables) == 1 (in either polarity) on the way to the key
+				guarded := false
+				for _, i2 := range allInstrs(fn) {
+					iff, ok := i2.(*ssa.If)
+					if !ok {
+						continue
+					}
+					bo, ok := iff.Cond.(*ssa.BinOp)
+					if !ok || (bo.Op != token.EQL && bo.Op != token.NEQ) || !isIntConst(bo.Y, 1) {
+						continue
+					}
+					lc, ok := bo.X.(*ssa.Call)
+					if !ok {
+						continue
+					}
+					if b, ok := lc.Call.Value.(*ssa.Builtin); ok && b.Name() == "len" && lc.Call.Args[0] == vars {
+						s := iff.Block().Succs[0]
+						if bo.Op == token.NEQ {
+							s = iff.Block().Succs[1]
+						}
+						if len(s.Preds) == 1 && (s == ks.at || s.Dominates(ks.at)) {
+							guarded = true
 						}
 					}
 				}
-			}
-			depHash := dependsOnFieldThroughMem(key, "QueryStringHash")
-			r.Check(depID, rule, fnName(set), "dedup key includes the entity id", r.P.pos(c.Pos()),
-				"the key is computed from variables[\"id\"]",
-				"the de-duplication key does not depend on the entity id taken from the request variables: lookups of different entities can collapse, or the same entity is fetched once per list position")
-			r.Check(depHash, rule, fnName(set), "dedup key includes the sub-query hash", r.P.pos(c.Pos()),
-				"the key is computed from QueryPlanStep.QueryStringHash",
-				"the de-duplication key ignores the sub-query: two different sub-queries for the same entity would share one answer")
-			// guard: len(variables) == 1
-			guarded := false
-			for _, i2 := range allInstrs(set) {
-				iff, ok := i2.(*ssa.If)
-				if !ok {
-					continue
-				}
-				bo, ok := iff.Cond.(*ssa.BinOp)
-				if !ok || bo.Op != token.EQL || !isIntConst(bo.Y, 1) {
-					continue
-				}
-				lc, ok := bo.X.(*ssa.Call)
-				if !ok {
-					continue
-				}
-				if b, ok := lc.Call.Value.(*ssa.Builtin); ok && b.Name() == "len" && lc.Call.Args[0] == ssa.Value(vars) {
-					s := iff.Block().Succs[0]
-					if len(s.Preds) == 1 && (s == c.Block() || s.Dominates(c.Block())) {
-						guarded = true
+				// a helper's key is used only where the helper said "shared"
+				for i, b := range ks.ok {
+					if !onTrueSide(ks.okOf[i], b) {
+						guarded = false
 					}
 				}
+				r.Check(guarded, rule, fnName(fn), "dedup only without other variables", site,
+					"de-duplication happens only under len(variables) == 1 (the id alone)",
+					"requests are de-duplicated although they may carry other variables than the id: answers computed for different variable values would be shared")
 			}
-			r.Check(guarded, rule, fnName(set), "dedup only without other variables", r.P.pos(c.Pos()),
-				"de-duplication happens only under len(variables) == 1 (the id alone)",
-				"requests are de-duplicated although they may carry other variables than the id: answers computed for different variable values would be shared")
 		}
 		r.AtLeast(rule, "de-duplicating Set calls", n, 1)
 	}
@@ -402,29 +576,344 @@ func ruleDedup(r *Run) {
 			if !ok || fieldOf(fa) == nil || fieldOf(fa).Name() != "Response" || !strings.HasSuffix(namedOf(fa.X.Type()), "executor.queryerResponse") {
 				continue
 			}
-			// the response value: result of copyMap or a fresh map literal
+			// the response value: result of a deep-copying function or a fresh map literal
 			v := st.Val
 			if _, isMake := v.(*ssa.MakeMap); isMake {
 				continue
 			}
 			n++
 			var cp *ssa.Call
-			if ex, ok := v.(*ssa.Extract); ok {
-				if c, ok := ex.Tuple.(*ssa.Call); ok && strings.HasSuffix(calleeName(&c.Call), "executor.copyMap") {
+			switch x := v.(type) {
+			case *ssa.Extract:
+				if c, ok := x.Tuple.(*ssa.Call); ok && x.Index == 0 {
 					cp = c
 				}
+			case *ssa.Call:
+				cp = x
 			}
-			if cp == nil {
+			var cpFn *ssa.Function
+			if cp != nil && !cp.Call.IsInvoke() {
+				if sc := cp.Call.StaticCallee(); sc != nil && inModule(sc) && len(sc.Blocks) > 0 {
+					cpFn = sc
+				}
+			}
+			if cpFn == nil {
 				r.Bad(rule, fnName(exq), "response copy per place", r.P.pos(st.Pos()), "a downstream answer is stored for an insertion point without being copied: de-duplicated answers would be shared between places and later merges/scrubs of one place would corrupt the others")
 				continue
 			}
+			deep, why := deepCopier(cpFn)
+			r.Check(deep, rule, fnName(cpFn), "copy of a shared answer is deep", r.P.pos(cpFn.Pos()),
+				"the copy shares nothing with its source: "+why,
+				"the function that copies a de-duplicated answer for each place does not copy the nested objects ("+why+"): the places share them, and they are stitched and scrubbed once per place — scrubbing one place strips the helper fields the other place still needs, later merges leak between places")
 			loop := innermostLoop(st.Block())
 			r.Check(loop != nil && loop[cp.Block()], rule, fnName(exq), "response copy per place", r.P.pos(cp.Pos()),
-				"copyMap is called inside the loop over the places that share the answer: one deep copy per place",
+				"the copy is made inside the loop over the places that share the answer: one deep copy per place",
 				"the answer of a de-duplicated lookup is copied once and that one map is stored for every place that needs it: the places then share nested objects, which are stitched and scrubbed once per place (C13: the second scrub no longer sees __typename and picks a helper list by map order; C01: later merges leak between places)")
 		}
 		r.AtLeast(rule, "stores of downstream answers", n, 1)
+
+		// R13k.slot: a request takes a target index (setIMap says "new") exactly when it adds
+		// one entry to the batch: the i-th answer belongs to the requests mapped to target i
+		var batchT string
+		for _, fn := range r.P.Funcs {
+			if topFn(fn).Pkg != exq.Pkg {
+				continue
+			}
+			for _, e := range r.P.CG.Ext[fn] {
+				if e.Name == "github.com/buildbuildio/pebbles/queryer.Queryer.Query" && len(e.Site.Common().Args) == 1 {
+					batchT = e.Site.Common().Args[0].Type().String()
+				}
+			}
+		}
+		isBatchAppend := func(ins ssa.Instruction) bool {
+			c, ok := ins.(*ssa.Call)
+			if !ok {
+				return false
+			}
+			b, isB := c.Call.Value.(*ssa.Builtin)
+			return isB && b.Name() == "append" && c.Type().String() == batchT
+		}
+		m := 0
+		// wherever the request loop lives (executeRequests or a helper that prepares the batch)
+		var setCalls []*Edge
+		if set != nil {
+			setCalls = r.P.CG.In[set]
+		}
+		for _, e := range setCalls {
+			c, ok := e.Site.(*ssa.Call)
+			if !ok || e.Kind != "static" {
+				continue
+			}
+			exq := e.Caller
+			m++
+			loop := innermostLoop(c.Block())
+			var fresh *ssa.BasicBlock
+			for _, ref := range *c.Referrers() {
+				if iff, ok := ref.(*ssa.If); ok && iff.Cond == ssa.Value(c) {
+					fresh = iff.Block().Succs[0]
+				}
+				if un, ok := ref.(*ssa.UnOp); ok && un.Op == token.NOT {
+					for _, r2 := range *un.Referrers() {
+						if iff, ok := r2.(*ssa.If); ok {
+							fresh = iff.Block().Succs[1]
+						}
+					}
+				}
+			}
+			good := loop != nil && fresh != nil && len(fresh.Preds) == 1 && batchT != ""
+			why := "the result of setIMap is not tested inside the request loop"
+			if good {
+				// every way from "new target index" back to the loop header adds one batch entry
+				var header *ssa.BasicBlock
+				for b := range loop {
+					for _, p := range b.Preds {
+						if !loop[p] {
+							header = b
+						}
+					}
+				}
+				min, max, cyclic := appendsToHeader(fresh, header, loop, isBatchAppend)
+				if cyclic || min != 1 || max != 1 {
+					good = false
+					why = fmt.Sprintf("after setIMap reported a new target index, %d..%d entries are added to the batch before the next request is looked at", min, max)
+				}
+				// and nothing else adds to the batch
+				for b := range loop {
+					for _, i2 := range b.Instrs {
+						if isBatchAppend(i2) && !(fresh == b || fresh.Dominates(b)) {
+							good = false
+							why = "the batch also grows where no target index was taken"
+						}
+					}
+				}
+			}
+			r.Check(good, "R13k.slot", fnName(exq), "one batch entry per new target index", r.P.pos(c.Pos()),
+				"a request is appended to the batch exactly when setIMap gave it a new target index, so answer i belongs to target index i",
+				"target indexes and batch positions drift apart ("+why+"): a request that is skipped after it took an index leaves a gap, every later answer is handed to the wrong requests and one place gets no answer at all")
+		}
+		if set != nil {
+			r.AtLeast("R13k.slot", "setIMap calls", m, 1)
+		}
 	}
+}
+
+// appendsToHeader: the smallest and largest number of instructions satisfying pred on the paths
+// from start to the loop header that stay inside the loop (paths that leave the loop — an
+// error return — give up the whole batch and do not count). cyclic: an inner cycle was met.
+func appendsToHeader(start, header *ssa.BasicBlock, loop map[*ssa.BasicBlock]bool, pred func(ssa.Instruction) bool) (min, max int, cyclic bool) {
+	type res struct {
+		min, max int
+		ok       bool
+	}
+	memo := map[*ssa.BasicBlock]*res{}
+	on := map[*ssa.BasicBlock]bool{}
+	var visit func(b *ssa.BasicBlock) res
+	visit = func(b *ssa.BasicBlock) res {
+		if b == header {
+			return res{0, 0, true}
+		}
+		if !loop[b] {
+			return res{}
+		}
+		if m := memo[b]; m != nil {
+			return *m
+		}
+		if on[b] {
+			cyclic = true
+			return res{}
+		}
+		on[b] = true
+		defer func() { on[b] = false }()
+		sum := 0
+		for _, i := range b.Instrs {
+			if pred(i) {
+				sum++
+			}
+		}
+		out := res{}
+		for _, s := range b.Succs {
+			sr := visit(s)
+			if !sr.ok {
+				continue
+			}
+			if !out.ok {
+				out = res{sum + sr.min, sum + sr.max, true}
+				continue
+			}
+			if sum+sr.min < out.min {
+				out.min = sum + sr.min
+			}
+			if sum+sr.max > out.max {
+				out.max = sum + sr.max
+			}
+		}
+		memo[b] = &out
+		return out
+	}
+	r := visit(start)
+	if !r.ok {
+		return 0, 0, cyclic
+	}
+	return r.min, r.max, cyclic
+}
+
+// deepCopier: every value fn returns as its first result shares no container with fn's
+// arguments: it went through a JSON round trip, or it is built from fresh maps/slices whose
+// elements are themselves produced by deep copiers (scalars may be passed on as they are).
+func deepCopier(fn *ssa.Function) (bool, string) {
+	return deepCopierRec(fn, map[*ssa.Function]bool{})
+}
+
+func deepCopierRec(fn *ssa.Function, busy map[*ssa.Function]bool) (bool, string) {
+	if busy[fn] {
+		return true, "" // recursion: judged by the outer invocation
+	}
+	busy[fn] = true
+	defer delete(busy, fn)
+	if len(fn.Blocks) == 0 || fn.Signature.Results().Len() == 0 {
+		return false, fnName(fn) + " has no body or no result"
+	}
+	// JSON round trip: the result is what json.Unmarshal decoded from json.Marshal(param)
+	jsonTargets := map[*ssa.Alloc]bool{}
+	for _, ins := range allInstrs(fn) {
+		c, ok := ins.(*ssa.Call)
+		if !ok || calleeName(&c.Call) != "encoding/json.Unmarshal" || len(c.Call.Args) != 2 {
+			continue
+		}
+		al, isAl := unwrap(c.Call.Args[1]).(*ssa.Alloc)
+		if !isAl {
+			continue
+		}
+		fromMarshal := false
+		for _, i2 := range allInstrs(fn) {
+			m, ok := i2.(*ssa.Call)
+			if !ok || calleeName(&m.Call) != "encoding/json.Marshal" || len(m.Call.Args) != 1 {
+				continue
+			}
+			if _, isParam := unwrap(m.Call.Args[0]).(*ssa.Parameter); isParam && dependsOn(c.Call.Args[0], m) {
+				fromMarshal = true
+			}
+		}
+		if fromMarshal {
+			jsonTargets[al] = true
+		}
+	}
+	var val func(v ssa.Value, ret *ssa.Return, depth int) (bool, string)
+	val = func(v ssa.Value, ret *ssa.Return, depth int) (bool, string) {
+		if depth > 8 {
+			return false, "too deep"
+		}
+		if b, isBasic := v.Type().Underlying().(*types.Basic); isBasic && b.Kind() != types.UnsafePointer {
+			return true, ""
+		}
+		switch x := v.(type) {
+		case *ssa.Const:
+			return true, ""
+		case *ssa.MakeInterface:
+			return val(x.X, ret, depth+1)
+		case *ssa.ChangeType:
+			return val(x.X, ret, depth+1)
+		case *ssa.Phi:
+			for _, e := range x.Edges {
+				if ok, why := val(e, ret, depth+1); !ok {
+					return false, why
+				}
+			}
+			return true, ""
+		case *ssa.UnOp:
+			if al, isAl := x.X.(*ssa.Alloc); isAl && x.Op == token.MUL && jsonTargets[al] {
+				return true, ""
+			}
+		case *ssa.MakeMap:
+			for _, ref := range *x.Referrers() {
+				if mu, ok := ref.(*ssa.MapUpdate); ok && mu.Map == ssa.Value(x) {
+					if ok, why := val(mu.Value, ret, depth+1); !ok {
+						return false, "an entry of the new map is " + why
+					}
+				}
+			}
+			return true, ""
+		case *ssa.MakeSlice:
+			for _, ref := range *x.Referrers() {
+				switch y := ref.(type) {
+				case *ssa.IndexAddr:
+					for _, r2 := range *y.Referrers() {
+						if st, ok := r2.(*ssa.Store); ok && st.Addr == ssa.Value(y) {
+							if ok, why := val(st.Val, ret, depth+1); !ok {
+								return false, "an element of the new slice is " + why
+							}
+						}
+					}
+				case *ssa.Call:
+					if b, isB := y.Call.Value.(*ssa.Builtin); isB && (b.Name() == "copy" || b.Name() == "append") {
+						if _, scalar := x.Type().Underlying().(*types.Slice).Elem().Underlying().(*types.Basic); !scalar {
+							return false, "the new slice is filled with copy/append of the source's elements"
+						}
+					}
+				}
+			}
+			return true, ""
+		case *ssa.Extract:
+			if c, ok := x.Tuple.(*ssa.Call); ok && x.Index == 0 {
+				return val(c, ret, depth+1)
+			}
+		case *ssa.Call:
+			if sc := x.Call.StaticCallee(); sc != nil && !x.Call.IsInvoke() && inModule(sc) && len(sc.Blocks) > 0 {
+				return deepCopierRec(sc, busy)
+			}
+			return false, "the result of " + calleeDesc(&x.Call)
+		case *ssa.Parameter:
+			// handed back as it is: fine for a scalar held in an interface, i.e. where the
+			// assertions to a map type and to a slice type have both failed
+			if _, isIface := x.Type().Underlying().(*types.Interface); isIface && ret != nil {
+				gotMap, gotSlice := false, false
+				for _, ins := range allInstrs(fn) {
+					iff, ok := ins.(*ssa.If)
+					if !ok {
+						continue
+					}
+					ex, ok := iff.Cond.(*ssa.Extract)
+					if !ok || ex.Index != 1 {
+						continue
+					}
+					ta, ok := ex.Tuple.(*ssa.TypeAssert)
+					if !ok || ta.X != ssa.Value(x) {
+						continue
+					}
+					no := iff.Block().Succs[1]
+					if len(no.Preds) != 1 || !(no == ret.Block() || no.Dominates(ret.Block())) {
+						continue
+					}
+					switch ta.AssertedType.Underlying().(type) {
+					case *types.Map:
+						gotMap = true
+					case *types.Slice:
+						gotSlice = true
+					}
+				}
+				if gotMap && gotSlice {
+					return true, ""
+				}
+				return false, "the argument " + x.Name() + " itself, returned without having been told apart from a map and a list"
+			}
+			return false, "the argument " + x.Name() + " itself"
+		}
+		return false, "the source's own value (" + strings.TrimPrefix(fmt.Sprintf("%T", v), "*ssa.") + " " + v.Name() + ")"
+	}
+	rets := returnsOf(fn)
+	for _, ret := range rets {
+		if ok, why := val(retVals(ret)[0], ret, 0); !ok {
+			return false, why
+		}
+	}
+	if len(rets) == 0 {
+		return false, "no return"
+	}
+	how := "built from new maps/lists whose entries are copied in turn"
+	if len(jsonTargets) > 0 {
+		how = "it is decoded from the JSON encoding of the source"
+	}
+	return true, how
 }
 
 // dependsOnThroughMem: like dependsOn, but also follows values stored into the variadic
@@ -521,7 +1010,58 @@ func ruleFailFast(r *Run) {
 	if mgr == nil {
 		return
 	}
+	recvOf := func(fn *ssa.Function) string {
+		if fn.Signature.Recv() == nil {
+			return ""
+		}
+		return namedOf(fn.Signature.Recv().Type())
+	}
 	n := 0
+	// inHelper: the failure tests of the calls a helper of the manager makes (the loop body, or
+	// part of it, moved into a method of the same type): a failure must leave the helper with
+	// a non-nil error, which the caller's own test (checked like any other) turns into the
+	// end of the loop
+	var inHelper func(h *ssa.Function, depth int)
+	seenHelper := map[*ssa.Function]bool{mgr: true}
+	inHelper = func(h *ssa.Function, depth int) {
+		if seenHelper[h] || depth > 3 {
+			return
+		}
+		seenHelper[h] = true
+		for _, ins := range allInstrs(h) {
+			c, ok := ins.(*ssa.Call)
+			if !ok {
+				continue
+			}
+			if sc := c.Call.StaticCallee(); sc != nil && !c.Call.IsInvoke() && inModule(sc) && recvOf(sc) != "" && recvOf(sc) == recvOf(mgr) {
+				inHelper(r.P.declared(sc), depth+1)
+			}
+			errv := errorOfCall(c)
+			if errv == nil {
+				continue
+			}
+			for _, t := range failureTests(errv) {
+				n++
+				reach := blockReach(t.fail)
+				reach[t.fail] = true
+				good := true
+				for b := range reach {
+					ret, isRet := b.Instrs[len(b.Instrs)-1].(*ssa.Return)
+					if !isRet {
+						continue
+					}
+					rv := retVals(ret)
+					for i, v := range rv {
+						if isErrorish(h.Signature.Results().At(i).Type()) && isNilConst(v) {
+							good = false
+						}
+					}
+				}
+				r.Check(good, rule, fnName(h), "failure of "+calleeDesc(&c.Call)+" is reported to the depth loop", r.P.pos(c.Pos()),
+					"every return on the failure side carries an error, which the depth loop tests", "after this call failed the helper can return without an error: the depth loop goes on and the next iteration executes the pending requests again (root mutations are sent once more per remaining depth)")
+			}
+		}
+	}
 	for _, ins := range allInstrs(mgr) {
 		c, ok := ins.(*ssa.Call)
 		if !ok {
@@ -531,18 +1071,12 @@ func ruleFailFast(r *Run) {
 		if loop == nil {
 			continue
 		}
-		var errv ssa.Value
-		if isErrorish(c.Type()) {
-			errv = c
-		} else if c.Referrers() != nil {
-			for _, ref := range *c.Referrers() {
-				if ex, ok := ref.(*ssa.Extract); ok && isErrorish(ex.Type()) {
-					errv = ex
-				}
-			}
-		}
+		errv := errorOfCall(c)
 		if errv == nil {
 			continue
+		}
+		if sc := c.Call.StaticCallee(); sc != nil && !c.Call.IsInvoke() && inModule(sc) && recvOf(sc) != "" && recvOf(sc) == recvOf(mgr) {
+			inHelper(r.P.declared(sc), 0)
 		}
 		for _, t := range failureTests(errv) {
 			n++
@@ -602,10 +1136,29 @@ func ruleStitchVariable(r *Run) {
 			}
 		}
 	}
-	for _, ins := range allInstrs(setm) {
-		if lk, ok := ins.(*ssa.Lookup); ok {
-			if k, ok := lk.Index.(*ssa.Const); ok && k.Value != nil {
-				looked = append(looked, strings.Trim(k.Value.ExactString(), `"`))
+	// the lookups of the de-duplication key: in setIMap or in the helpers of its package it
+	// hands the request variables to
+	lookFns := []*ssa.Function{setm}
+	for i := 0; i < len(lookFns) && i < 8; i++ {
+		for _, e := range r.P.CG.Out[lookFns[i]] {
+			if e.Kind != "static" || e.Callee.Pkg != setm.Pkg || e.Callee.Signature.Recv() != nil && e.Callee != setm {
+				continue
+			}
+			dup := false
+			for _, f := range lookFns {
+				dup = dup || f == e.Callee
+			}
+			if !dup {
+				lookFns = append(lookFns, e.Callee)
+			}
+		}
+	}
+	for _, lf := range lookFns {
+		for _, ins := range allInstrs(lf) {
+			if lk, ok := ins.(*ssa.Lookup); ok {
+				if k, ok := lk.Index.(*ssa.Const); ok && k.Value != nil && k.Value.Kind() == constant.String {
+					looked = append(looked, constant.StringVal(k.Value))
+				}
 			}
 		}
 	}
@@ -616,7 +1169,7 @@ func ruleStitchVariable(r *Run) {
 		}
 	}
 	r.Check(ok, rule, fnName(getv), "stitched id variable agrees", r.P.pos(getv.Pos()),
-		"planner uses $"+strings.Join(planned, ",")+" in node(id: …); the executor stores the entity id under the same name and de-duplicates on it",
+		"planner uses $"+strings.Join(planned, ",")+" in node(id: …); the executor stores the entity id under the same name and de-duplicates on it (the name is not reserved: a client variable that is also called $"+strings.Join(planned, ",")+" and is used below an entity boundary is re-declared as ID! and overwritten by the entity id — audit 8, C1; this rule only shows that planner and executor agree on the name)",
 		"the variable name the planner puts into `node(id: $…)` ("+strings.Join(planned, ",")+"), the name the executor stores the entity id under ("+strings.Join(filled, ",")+") and the name de-duplication looks up ("+strings.Join(looked, ",")+") differ: child steps are sent without their id")
 	okArg := len(argName) == 1 && argName[0] == "id"
 	r.Check(okArg, rule, fnName(conv), "node argument name", r.P.pos(conv.Pos()), "the wrapper calls node(id: …)", "the node wrapper no longer passes the argument `id` required by the Relay Node field")
@@ -743,10 +1296,14 @@ func ruleQueryHash(r *Run) {
 	n := 0
 	for _, fn := range r.P.Funcs {
 		var qsVal ssa.Value
+		var qsStore *ssa.Store
+		nQS := 0
 		for _, ins := range allInstrs(fn) {
 			if st, ok := ins.(*ssa.Store); ok {
 				if fa, ok := st.Addr.(*ssa.FieldAddr); ok && fieldOf(fa) != nil && fieldOf(fa).Name() == "QueryString" && namedOf(fa.X.Type()) == plannerPkg+".QueryPlanStep" {
 					qsVal = st.Val
+					qsStore = st
+					nQS++
 				}
 			}
 		}
@@ -759,6 +1316,9 @@ func ruleQueryHash(r *Run) {
 			if !ok || fieldOf(fa) == nil || fieldOf(fa).Name() != "QueryStringHash" || namedOf(fa.X.Type()) != plannerPkg+".QueryPlanStep" {
 				continue
 			}
+			if nQS != 1 {
+				qsStore = nil // the field is read back only when it is assigned exactly once
+			}
 			if al, isAl := fa.X.(*ssa.Alloc); isAl && al.Parent() == fn {
 				if _, isConst := st.Val.(*ssa.Const); isConst {
 					continue // zero value in a literal
@@ -767,7 +1327,7 @@ func ruleQueryHash(r *Run) {
 			n++
 			good := false
 			if c, ok := st.Val.(*ssa.Call); ok && strings.HasPrefix(calleeName(&c.Call), "crypto/sha") && len(c.Call.Args) == 1 && qsVal != nil {
-				if cv, ok := c.Call.Args[0].(*ssa.Convert); ok && cv.X == qsVal {
+				if cv, ok := c.Call.Args[0].(*ssa.Convert); ok && (cv.X == qsVal || loadsStoredField(cv.X, fa.X, "QueryString", qsStore)) {
 					good = true
 				}
 			}
@@ -791,4 +1351,260 @@ func ruleQueryHash(r *Run) {
 		}
 	}
 	r.AtLeast(rule, "assignments of QueryStringHash", n, 1)
+}
+
+// loadsStoredField: v is a load of field `field` of the object obj, read after the (only)
+// store st to that field of the same object — the value read is the value stored.
+func loadsStoredField(v, obj ssa.Value, field string, st *ssa.Store) bool {
+	ld, ok := v.(*ssa.UnOp)
+	if !ok || ld.Op != token.MUL || st == nil {
+		return false
+	}
+	fa, ok := ld.X.(*ssa.FieldAddr)
+	if !ok || fieldOf(fa) == nil || fieldOf(fa).Name() != field || fa.X != obj {
+		return false
+	}
+	sfa, ok := st.Addr.(*ssa.FieldAddr)
+	return ok && sfa.X == obj && instrDominates(st, ld)
+}
+
+// errorOfCall: the error value a call yields (nil if it has none).
+func errorOfCall(site ssa.Instruction) ssa.Value {
+	c, ok := site.(*ssa.Call)
+	if !ok {
+		return nil
+	}
+	if isErrorish(c.Type()) {
+		return c
+	}
+	if c.Referrers() != nil {
+		for _, ref := range *c.Referrers() {
+			if ex, ok := ref.(*ssa.Extract); ok && isErrorish(ex.Type()) {
+				return ex
+			}
+		}
+	}
+	return nil
+}
+
+// chainCycle: fn reaches itself through calls between send-chain functions; the cycle is
+// described, "" if there is none.
+func chainCycle(r *Run, fn *ssa.Function, chain map[*ssa.Function]bool) string {
+	seen := map[*ssa.Function]bool{}
+	var walk func(f *ssa.Function, path []string) string
+	walk = func(f *ssa.Function, path []string) string {
+		for _, e := range r.P.CG.Out[f] {
+			if e.Kind == "param" || !chain[e.Callee] {
+				continue
+			}
+			if e.Callee == fn {
+				return strings.Join(append(path, fnName(fn)), " → ")
+			}
+			if seen[e.Callee] {
+				continue
+			}
+			seen[e.Callee] = true
+			if c := walk(e.Callee, append(path, fnName(e.Callee))); c != "" {
+				return c
+			}
+		}
+		return ""
+	}
+	return walk(fn, []string{fnName(fn)})
+}
+
+// hofAllowed: module helpers that run the function they are given once per element of a
+// collection; their call sites are judged like a direct call.
+var hofAllowed = map[string]string{
+	"common.AsyncMapReduce": "the fan-out helper calls its mapper exactly once per input element (protocol R1): a fan-out over distinct elements, not a repetition",
+}
+
+// hofCallsOnce: e hands the function e.Callee to a module helper (a "hoarg" edge); the helper
+// calls that parameter at most once per invocation — not in a loop, not twice on a path, not
+// from a recursion, and it does not put it aside.
+func (r *Run) hofCallsOnce(e *Edge) (bool, string) {
+	var hs []*ssa.Function
+	off := 0
+	if e.Site.Common().IsInvoke() {
+		off = 1 // the receiver is a parameter of the method but not an argument of the call
+	}
+	for _, e2 := range r.P.CG.Out[e.Caller] {
+		if e2.Site == e.Site && (e2.Kind == "static" || e2.Kind == "invoke" || e2.Kind == "dynamic") {
+			hs = append(hs, e2.Callee)
+		}
+	}
+	if len(hs) == 0 {
+		return false, "the helper it is handed to could not be resolved"
+	}
+	for _, h := range hs {
+		if _, ok := hofAllowed[fnName(h)]; ok {
+			continue
+		}
+		found := false
+		for i, a := range e.Site.Common().Args {
+			if _, isSig := a.Type().Underlying().(*types.Signature); !isSig || i+off >= len(h.Params) {
+				continue
+			}
+			fs, _ := r.P.CG.funcValues(a, map[ssa.Value]bool{})
+			for _, f := range fs {
+				if origin(f) == e.Callee {
+					found = true
+					if once, why := paramCalledOnce(r, h, i+off, map[*ssa.Function]bool{}); !once {
+						return false, why
+					}
+				}
+			}
+		}
+		if !found {
+			return false, "the argument position in " + fnName(h) + " could not be resolved"
+		}
+	}
+	return true, ""
+}
+
+func paramCalledOnce(r *Run, h *ssa.Function, idx int, busy map[*ssa.Function]bool) (bool, string) {
+	if busy[h] {
+		return false, fnName(h) + " passes it to itself again (recursion)"
+	}
+	busy[h] = true
+	defer delete(busy, h)
+	if idx >= len(h.Params) || len(h.Blocks) == 0 {
+		return false, fnName(h) + " has no body"
+	}
+	p := h.Params[idx]
+	sites := map[ssa.Instruction]bool{}
+	for _, ref := range *p.Referrers() {
+		switch x := ref.(type) {
+		case *ssa.DebugRef:
+		case *ssa.Call:
+			if x.Call.Value == ssa.Value(p) {
+				sites[x] = true
+				continue
+			}
+			g := x.Call.StaticCallee()
+			if g == nil || x.Call.IsInvoke() || !inModule(g) {
+				return false, fnName(h) + " hands it on to " + calleeDesc(&x.Call)
+			}
+			for j, a := range x.Call.Args {
+				if a == ssa.Value(p) {
+					if once, why := paramCalledOnce(r, r.P.declared(g), j, busy); !once {
+						return false, why
+					}
+				}
+			}
+			sites[x] = true
+		default:
+			return false, fmt.Sprintf("%s keeps it for later (%s)", fnName(h), strings.TrimPrefix(fmt.Sprintf("%T", ref), "*ssa."))
+		}
+	}
+	for s := range sites {
+		if inAnyLoop(s.Block()) {
+			return false, fnName(h) + " calls it inside a loop"
+		}
+	}
+	if len(sites) > 0 {
+		if max, cyclic := maxHopsOnPath(h, sites); max > 1 || cyclic {
+			return false, fmt.Sprintf("%s calls it up to %d times on one path", fnName(h), max)
+		}
+	}
+	return true, ""
+}
+
+// loopedBelow: the confirmed looped callees (keys of loopsAllowed for pkg) that every call
+// path from fn to the sink passes through; nil if some path avoids them.
+func loopedBelow(r *Run, fn *ssa.Function, chain map[*ssa.Function]bool, sink, pkg string) []string {
+	var keys []string
+	seen := map[*ssa.Function]bool{fn: true}
+	work := []*ssa.Function{fn}
+	for len(work) > 0 {
+		f := work[len(work)-1]
+		work = work[:len(work)-1]
+		for _, x := range r.P.CG.Ext[f] {
+			if x.Name == sink {
+				return nil
+			}
+		}
+		for _, e := range r.P.CG.Out[f] {
+			if e.Kind == "param" || !chain[e.Callee] || seen[e.Callee] {
+				continue
+			}
+			seen[e.Callee] = true
+			k := pkg + " | " + fnName(e.Callee)
+			if _, ok := loopsAllowed[k]; ok {
+				if inAnyLoop(e.Site.Block()) {
+					return nil // looped again below: judged (and charged) at that site
+				}
+				keys = append(keys, k)
+				continue
+			}
+			work = append(work, e.Callee)
+		}
+	}
+	sort.Strings(keys)
+	return keys
+}
+
+func creditsLeft(r *Run, keys []string) bool {
+	for _, k := range keys {
+		if loopsAllowedUsed[r.Property+k] >= loopsAllowed[k].N {
+			return false
+		}
+	}
+	return true
+}
+
+// depthPass is a call in the manager's Execute that runs one depth: DepthExecutor.Execute
+// itself, or a helper method of the manager that (statically) calls it. nest is the number of
+// loops around the call, summed over the helpers on the way.
+type depthPass struct {
+	edge *Edge // the call in the manager's Execute
+	nest int
+}
+
+func loopDepthOf(b *ssa.BasicBlock) int {
+	d := 0
+	for _, h := range b.Parent().Blocks {
+		if l := naturalLoop(h); len(l) > 0 && l[b] {
+			d++
+		}
+	}
+	return d
+}
+
+func depthPassSites(r *Run, mgr *ssa.Function) []depthPass {
+	const target = "executor.(*DepthExecutor).Execute"
+	var nestTo func(fn *ssa.Function, depth int) []int
+	nestTo = func(fn *ssa.Function, depth int) []int {
+		var out []int
+		if depth > 3 {
+			return nil
+		}
+		for _, e := range r.P.CG.Out[fn] {
+			if e.Kind != "static" {
+				continue
+			}
+			if fnName(e.Callee) == target {
+				out = append(out, loopDepthOf(e.Site.Block()))
+			} else if e.Callee.Pkg == mgr.Pkg && e.Callee != mgr {
+				for _, d := range nestTo(e.Callee, depth+1) {
+					out = append(out, d+loopDepthOf(e.Site.Block()))
+				}
+			}
+		}
+		return out
+	}
+	var out []depthPass
+	for _, e := range r.P.CG.Out[mgr] {
+		if e.Kind != "static" {
+			continue
+		}
+		if fnName(e.Callee) == target {
+			out = append(out, depthPass{e, loopDepthOf(e.Site.Block())})
+		} else if e.Callee.Pkg == mgr.Pkg && e.Callee != mgr {
+			for _, d := range nestTo(e.Callee, 0) {
+				out = append(out, depthPass{e, d + loopDepthOf(e.Site.Block())})
+			}
+		}
+	}
+	return out
 }
